@@ -85,7 +85,7 @@ SPEC = {
         "decoded values are not modelled (C01b); round 6: byte array / byte slice types with an object code held by value (object form), types that decode themselves (DeserializableJSON through a pointer and through a value receiver) with a registered syntactic validator, "
         "JSONDecode on raw texts (the model is given the tree encoding/json makes of the text: not JSON / a top-level non-object is an error, null the empty object), serix.DecodeHex / DecodeUint256 / DecodeUint64 called directly on arbitrary strings",
         "serix binary Decode over registered types: model Hive/Model/Serix.lean, theorems Props/C02b.lean, tie = second part (harness/c02/serix over harness/serixgen, driver drv_c02b; no allocation / time oracle there); "
-        "in the first part serix.Decode runs under the RESOURCE oracle only: four catalogue types of its own (X1..X4) and every catalogue type + 30 generated universes of harness/serixgen, each with every offset of a valid encoding overwritten by a huge value of every prefix width",
+        "in the first part serix.Decode runs under the RESOURCE oracle only: four catalogue types of its own (X1..X4) and every catalogue type + 30 generated universes of harness/serixgen, each with every offset of a valid encoding overwritten by a huge value of every prefix width; the same universes on the JSON side (jx: JSONDecode of kind-mutated JSONEncode texts into the universe's top type, oracle only)",
         "alloc = bytes requested with an input-dependent size (make/append/string conversion); fixed-size allocations per loop round are accounted by iters",
     ],
     "manifest": {
